@@ -89,7 +89,9 @@ impl Prop for P20 {
         // also a proper prefix of R right in front of R ("{{}", "aab" for R = "ab")
         let partial: String = the_r.chars().take(the_r.chars().count().saturating_sub(1).max(1)).collect();
         let pieces: Vec<String> = vec![the_r.clone(), "x".into(), "-".into(), "é".into(), "/".into(), "=".into(), the_r.clone(), "ab".into(), " ".into(), partial];
-        let ninit = rng.below(4);
+        // now and then many initial arguments, every one of them with R in it
+        let ninit = if rng.chance(1, 6) { 6 + rng.below(4) } else { rng.below(4) };
+        let many = ninit >= 6;
         let init: Vec<Value> = (0..ninit)
             .map(|_| {
                 let mut s = String::new();
@@ -98,6 +100,9 @@ impl Prop for P20 {
                 }
                 if s.is_empty() {
                     s.push('z');
+                }
+                if many && !s.contains(the_r.as_str()) {
+                    s.push_str(&the_r);
                 }
                 str_to_json(&s)
             })
